@@ -257,7 +257,7 @@ void labeled_sum<bool>(const numpy::aligned_array<bool> array, const numpy::alig
 
 template <typename T>
 void labeled_max(const numpy::aligned_array<T> array, const numpy::aligned_array<int> labeled, T* result, const int maxlabel) {
-    labeled_foldl(array, labeled, result, maxlabel,std::numeric_limits<T>::min(), std_like_max<T>);
+    labeled_foldl(array, labeled, result, maxlabel,std::numeric_limits<T>::lowest(), std_like_max<T>);
 }
 
 template <typename T>
